@@ -115,11 +115,78 @@ func flowsInto(src, dst ssa.Value, viaAppend bool) bool {
 }
 
 // paramByName returns the named parameter of fn.
+// paramByName resolves a parameter by the name the rules use for its role. The function's own
+// parameter names come first; when the implementation renamed them, the names declared for the
+// same method in an interface of the package (the documented signature, e.g. Alignment.Mask) give
+// the position; last, the table of positions of the few non-interface functions the rules name a
+// parameter of. Parameter order and types of these functions are API or are fixed by their
+// callers, so positions survive a behaviour-preserving edit where names do not.
 func paramByName(fn *ssa.Function, name string) *ssa.Parameter {
 	for _, p := range fn.Params {
 		if p.Name() == name {
 			return p
 		}
+	}
+	off := 0
+	if fn.Signature.Recv() != nil {
+		off = 1
+	}
+	for i, dn := range declaredParamNames(fn) {
+		if dn == name && i+off < len(fn.Params) {
+			return fn.Params[i+off]
+		}
+	}
+	return nil
+}
+
+// paramPositions: role name -> position (receiver excluded) for functions that implement no
+// interface method.
+var paramPositions = map[string][]string{
+	"countMutations":             {"seq1", "seq2", "selectedSites", "weights"},
+	"countDiffs":                 {"seq1", "seq2", "selectedSites", "weights", "removeAmbiguous"},
+	"countDiffsWithGaps":         {"seq1", "seq2", "selectedSites", "weights", "removeAmbiguous"},
+	"countDiffsWithInternalGaps": {"seq1", "seq2", "selectedSites", "weights", "removeAmbiguous"},
+	"countMutationsNoAmbiguous":  {"seq1", "seq2", "selectedSites", "weights"},
+	"ReadAlign":                  {"file", "format"},
+}
+
+// declaredParamNames: the documented parameter names of fn (receiver excluded): those of the
+// interface method of the same name and arity in fn's package if there is one, else the table.
+func declaredParamNames(fn *ssa.Function) []string {
+	n := fn.Signature.Params().Len()
+	if fn.Pkg != nil && fn.Signature.Recv() != nil {
+		sc := fn.Pkg.Pkg.Scope()
+		for _, nm := range sc.Names() {
+			tn, ok := sc.Lookup(nm).(*types.TypeName)
+			if !ok {
+				continue
+			}
+			it, ok := tn.Type().Underlying().(*types.Interface)
+			if !ok {
+				continue
+			}
+			for i := 0; i < it.NumMethods(); i++ {
+				m := it.Method(i)
+				sig := m.Type().(*types.Signature)
+				if m.Name() != fn.Name() || sig.Params().Len() != n {
+					continue
+				}
+				same := true
+				var names []string
+				for k := 0; k < n; k++ {
+					if !types.Identical(sig.Params().At(k).Type(), fn.Signature.Params().At(k).Type()) {
+						same = false
+					}
+					names = append(names, sig.Params().At(k).Name())
+				}
+				if same {
+					return names
+				}
+			}
+		}
+	}
+	if t, ok := paramPositions[fn.Name()]; ok && len(t) <= n {
+		return t
 	}
 	return nil
 }
